@@ -96,6 +96,13 @@ Record rstate := mkR {
 Definition mem_nat (n : nat) (l : list nat) : bool := existsb (Nat.eqb n) l.
 Definition is_chunk (c : cmd) : bool := match c with CCreateOrUpdateFile _ _ _ _ => true | _ => false end.
 
+(* an injected failure of a deletion is a failed deletion: the doer remembers it (F6b repair) *)
+Definition inj_state (st : dstate) (c : cmd) : dstate :=
+  match c with
+  | CDeleteFile p | CDeleteFolder p | CDeleteSymlink p _ => note_faildel st p
+  | _ => st
+  end.
+
 Definition do_step (fl : flavour) (ft : faults) (r : rstate) (s : bstep) : rstate :=
   let budget' := match rs_budget r with Some (S n) => Some n | x => x end in
   match s with
@@ -108,7 +115,7 @@ Definition do_step (fl : flavour) (ft : faults) (r : rstate) (s : bstep) : rstat
       let injected := mutating c && negb (is_chunk c) && mem_nat (rs_mut r) (ft_dest ft) in
       let stopped := mutating c && match ft_stop ft with Some n => Nat.leb n (rs_mut r) | None => false end in
       let de := if stopped then (rs_d r, Some EKilled)
-                else if injected then (rs_d r, Some EInjected) else doer_exec fl (rs_d r) c in
+                else if injected then (inj_state (rs_d r) c, Some EInjected) else doer_exec fl (rs_d r) c in
       let mut' := if mutating c then S (rs_mut r) else rs_mut r in
       match snd de with
       | None => mkR (fst de) (rs_sent r ++ [c]) (rs_src r) (rs_errs r) false mut' (rs_get r) budget'
